@@ -159,7 +159,11 @@ func (e *Engine) qeCallback(q *QEInfo, qr res.QueryRequest) {
 		if strings.HasPrefix(a, "ev:") {
 			// an event sent on the query request is an event of the resource:
 			// applied, published, announced to the listeners
-			qr.Event(a[3:], map[string]interface{}{"n": sid})
+			if pad := model.PadFor(sid); pad != "" {
+				qr.Event(a[3:], map[string]interface{}{"n": sid, "pad": pad})
+			} else {
+				qr.Event(a[3:], map[string]interface{}{"n": sid})
+			}
 			continue
 		}
 		switch a {
